@@ -1107,7 +1107,9 @@ class XsdGroup(XsdComponent, MutableSequence[ModelParticleType],
         errors = []
         text = raw_encode_value(obj.text)
         children: list[ElementType] = []
-        default_namespace = context.converter.get('')
+        # Names are already resolved by the converter, that applies the default namespace of
+        # the child's own scope: don't apply the parent's one again to a name in no namespace.
+        default_namespace = context.converter.get('') if context.converter.loss_xmlns else None
 
         if (elem := context.elem) is None:
             context.elem = elem = context.create_element(tag=obj.tag)
